@@ -159,30 +159,20 @@ Proof. exact dsl_allowed_complete. Qed.
 Print Assumptions C18_dsl_allowed_complete.
 
 
-(* ---- band filters: only-values / only-bytes (builtin_fn_io.go) ---- *)
+(* ---- early exits never make earlier stages hang ---- *)
 
-(* FULL STATEMENT (the property's "a stage that exits without reading all its
-   input never makes earlier stages hang", for pipelines without single-band
-   reads) — false of the faithful model, see C18_early_exit_never_hangs_refuted:
-     forall p capB s, no_recv1 p = true -> 1 <= capB -> preachable p capB s ->
-       ~ pdone p s -> can_move lstate want cont (length p) (caps capB) s.
-   It holds when no band filter joins its helper goroutine after a failed write
-   ([plain]: no IRecv1, no IOnly true; IOnly false is the repaired builtin): *)
-Theorem C18_early_exit_never_hangs_partial : forall p capB s,
-  plain p = true -> 1 <= capB -> preachable p capB s -> ~ pdone p s ->
+(* For every pipeline of the DSL without single-band reads — producers, `each`
+   filters/forwarders/sinks, the band filters only-values / only-bytes, throwers,
+   stages that leave at once, in any order and number — every reachable state in
+   which a stage is still running can move: whatever exits early, nobody hangs.
+   (Before /repo f37fd5c this was false for only-values / only-bytes, which joined
+   their drain goroutine after reader-gone: `range 1000 | only-values | nop` hung;
+   finding class band-filter-joins-drain-before-early-exit, status fixed.) *)
+Theorem C18_early_exit_never_hangs : forall p capB s,
+  no_recv1 p = true -> 1 <= capB -> preachable p capB s -> ~ pdone p s ->
   can_move lstate want cont (length p) (caps capB) s.
-Proof. exact early_exit_never_hangs_partial. Qed.
-Print Assumptions C18_early_exit_never_hangs_partial.
-
-(* `range 1000 | only-values | nop` at HEAD: nop exits, only-values is told
-   "reader gone" and then waits for the end of the byte band, range stays blocked
-   on the full value channel: a reachable state that is not final and cannot move. *)
-Theorem C18_early_exit_never_hangs_refuted :
-  exists p capB s, 1 <= capB /\ no_recv1 p = true /\ preachable p capB s /\ ~ pdone p s /\
-                   ~ can_move lstate want cont (length p) (caps capB) s.
-Proof. exact early_exit_never_hangs_refuted. Qed.
-Print Assumptions C18_early_exit_never_hangs_refuted.
-
+Proof. exact early_exit_never_hangs. Qed.
+Print Assumptions C18_early_exit_never_hangs.
 
 (* Read-to-end pipelines are deterministic.  When every stage has the shape
    `sends ; each {forward what the filter keeps} ; sends` (det_pipeline), two
@@ -250,6 +240,23 @@ Example C18_ex_two_exceptions :
   | Some s => all_doneb lstate 4 s && allowed ex_p3 (pobs ex_p3 s)
               && final_eqb (o_final (pobs ex_p3 s))
                    (FMulti [None; Some (Fail 101%N); None; Some (Fail 103%N)])
+  | None => false
+  end = true.
+Proof. vm_compute. reflexivity. Qed.
+
+(* `range 34 | only-values | nop`: completes under the schedule that blocked it
+   before the repair (last stage leaves, the filter is told reader-gone) and the
+   producer observes reader-gone; nothing is reported *)
+Example C18_ex_band_filter_early_exit :
+  let s0 := init_state lstate (init p_filter) in
+  match prun p_filter 1 [(2, true); (0, true); (1, true); (1, false)] with
+  | Some s1 =>
+    match run_sched lstate want cont 3 (caps 1) (auto_sched p_filter 1 false 200 s1) s1 with
+    | Some s => all_doneb lstate 3 s && allowed_outcome lstate want cont 3 (init p_filter) (pobs p_filter s)
+                && no_recv1 p_filter && has_gone (hist (stg s 0)) && has_gone (hist (stg s 1))
+                && final_eqb (o_final (pobs p_filter s)) FNone
+    | None => false
+    end
   | None => false
   end = true.
 Proof. vm_compute. reflexivity. Qed.
